@@ -5,6 +5,7 @@ import (
 	"time"
 
 	varmq "github.com/goptics/varmq"
+	"github.com/goptics/varmq/internal/queues"
 	"github.com/goptics/varmq/internal/vrt"
 )
 
@@ -58,6 +59,59 @@ func init() {
 				go func() { q.Purge() }()
 				go func() { q.Add(2, AddOpt{}) }()
 				go func() { h.Wait(j1) }()
+				h.End()
+			},
+		})
+	}
+	// a job cancelled while pending, with more jobs behind it: the slot of the skipped job is given back exactly once
+	for _, kp := range []kindPair{{Plain, Fifo}, {ResW, Prio}, {ErrW, Fifo}} {
+		kp := kp
+		Register(&Scenario{
+			Name:  name("cancel-mid/%s", kp),
+			Props: []string{"C02", "C10", "C01", "C03", "C17"},
+			Mode:  "NB", Quick: 2, Thorough: 3, Shards: 8,
+			Body: func(h *H) {
+				h.Shape = Gated
+				h.CrashProp = "C10"
+				w := h.NewWorker(kp.W, 1)
+				q := w.Bind(kp.Q, nil)
+				q.Add(0, AddOpt{})
+				h.Quiesce(false)
+				j1 := q.Add(1, AddOpt{Prio: 1})
+				q.Add(2, AddOpt{Prio: 2})
+				q.Add(3, AddOpt{Prio: 3})
+				h.CloseJob(j1)
+				go func() { h.Open(0) }()
+				h.Quiesce(false)
+				h.OpenAll(1, 2, 3)
+				h.End()
+			},
+		})
+	}
+	// Purge when the FIFO queue's read segment is exhausted and the pending jobs live in the next segment
+	for _, kp := range []kindPair{{Plain, Fifo}, {ResW, Fifo}} {
+		kp := kp
+		Register(&Scenario{
+			Name:  name("segment-purge/%s", kp),
+			Props: []string{"C10", "C05", "C17"},
+			Mode:  "NB", Quick: 1, Thorough: 2, Shards: 4,
+			Body: func(h *H) {
+				h.Shape = Gated
+				h.CrashProp = "C10"
+				if !queues.VrtSetCaps(2, 3) {
+					h.Notes = append(h.Notes, "capacity variables not found: real capacities used")
+				}
+				w := h.NewWorker(kp.W, 2)
+				q := w.Bind(kp.Q, nil)
+				var js []*JobRec
+				for i := 0; i < 5; i++ {
+					js = append(js, q.Add(i, AddOpt{}))
+				}
+				h.Quiesce(false) // jobs 0 and 1 (the whole first segment) are executing, 2..4 wait in the second
+				go func() { q.Purge() }()
+				go func() { h.Wait(js[4]) }()
+				h.Quiesce(false)
+				h.OpenAll(0, 1, 2, 3, 4)
 				h.End()
 			},
 		})
@@ -150,6 +204,32 @@ func init() {
 				h.End()
 			},
 		})
+		// three concurrent barrier callers of different kinds: every one of them must be released
+		Register(&Scenario{
+			Name:  name("wuf3/%s", kp),
+			Props: []string{"C06"},
+			Mode:  "NB", Quick: 1, Thorough: 2, Shards: 8,
+			Body: func(h *H) {
+				h.HangProp = "C06"
+				h.Shape = Gated
+				w := h.NewWorker(kp.W, 1)
+				q := w.Bind(kp.Q, nil)
+				q.Add(0, AddOpt{})
+				h.Quiesce(false)
+				go func() { w.WaitUntilFinished() }()
+				go func() { w.WaitUntilFinished() }()
+				go func() { w.PauseAndWait() }()
+				go func() { w.WaitUntilFinished() }()
+				h.Quiesce(false)
+				h.Open(0)
+				h.Quiesce(true)
+				for _, ww := range h.Ws {
+					ww.RefState = "Paused"
+				}
+				h.NoRest = true
+				h.End()
+			},
+		})
 		Register(&Scenario{
 			Name:  name("pausewait/%s", kp),
 			Props: []string{"C09", "C06", "C01", "C03", "C04", "C17"},
@@ -227,7 +307,7 @@ func init() {
 		// (free slots are not to wait for the running job to finish)
 		Register(&Scenario{
 			Name:  name("pause-resume-busy/%s", kp),
-			Props: []string{"C09", "C03", "C02"},
+			Props: []string{"C09", "C03", "C02", "C04"},
 			Mode:  "NB", Quick: 2, Thorough: 3, Shards: 8,
 			Body: func(h *H) {
 				h.Shape = Gated
@@ -289,7 +369,7 @@ func init() {
 		kp := kp
 		Register(&Scenario{
 			Name:  name("tune-down/%s", kp),
-			Props: []string{"C02", "C03", "C18", "C01"},
+			Props: []string{"C02", "C03", "C18", "C01", "C04"},
 			Mode:  "NB", Quick: 1, Thorough: 2, Shards: 8,
 			Body: func(h *H) {
 				h.Shape = Gated
@@ -319,7 +399,7 @@ func init() {
 		})
 		Register(&Scenario{
 			Name:  name("tune-up/%s", kp),
-			Props: []string{"C02", "C03", "C18", "C01"},
+			Props: []string{"C02", "C03", "C18", "C01", "C04"},
 			Mode:  "NB", Quick: 2, Thorough: 3, Shards: 8,
 			Body: func(h *H) {
 				h.Shape = Gated
@@ -409,7 +489,7 @@ func init() {
 		kp := kp
 		Register(&Scenario{
 			Name:  name("tune-race/%s", kp),
-			Props: []string{"C02", "C03"},
+			Props: []string{"C02", "C03", "C04"},
 			Mode:  "NB", Quick: 2, Thorough: 3, Shards: 8,
 			Body: func(h *H) {
 				h.Shape = Gated
@@ -438,6 +518,10 @@ func init() {
 			q := w.Bind(Fifo, nil)
 			w.TunePool(0)
 			n := w.Wk.NumConcurrency()
+			if n < 1 || n > 256 {
+				h.viol("C02", "C02.numconcurrency", "TunePool(0) did not set the concurrency to the number of CPUs")
+				return
+			}
 			for i := 0; i <= n; i++ {
 				q.Add(i, AddOpt{})
 			}
@@ -458,6 +542,10 @@ func init() {
 			w := h.NewWorker(ResW, 0)
 			q := w.Bind(Fifo, nil)
 			n := w.Wk.NumConcurrency()
+			if n < 1 || n > 256 {
+				h.viol("C02", "C02.numconcurrency", "a concurrency below 1 did not become the number of CPUs")
+				return
+			}
 			for i := 0; i <= n; i++ {
 				q.Add(i, AddOpt{})
 			}
